@@ -269,11 +269,58 @@ def road_codes(tier, rnd, part, nparts):
     return out
 
 
+def own_km(code):
+    """the distance an event code denotes, by a parser of its own (whole metres, N[.d]K, N[.d]M miles, the named ones)"""
+    import re
+    c = code.upper()
+    named = {'MAR': 42.195, 'HM': 21.0975, 'MILE': 1.609344}
+    if c in named:
+        return named[c]
+    m = re.match(r'^(\d+(?:\.\d+)?)(K|M|MT)?$', c)
+    if not m:
+        return None
+    q = float(m.group(1))
+    return q / 1000.0 if m.group(2) is None else q if m.group(2) == 'K' else q * 1.609344
+
+
+def distance_column(mon, ctx):
+    """invariant on the live tables: the distance column of a running row is the distance its code denotes (to 0.2 %: the
+    mile is tabulated as 1.609 and as 1.609344), and the running rows are in order of distance - interpolation between rows
+    reads that column, and the envelope oracle would follow a slipped digit (16.9344 for 10 miles) instead of reporting it"""
+    import athlib
+    for y, ag in ((2015, athlib.ag2015), (2023, athlib.ag2023)):
+        data = ag.get_data()
+        for g in 'mf':
+            t = data[g]
+            i50 = [i for i, r in enumerate(t) if r[0] == '50'][0]
+            for r in t[i50:]:
+                km = own_km(r[0])
+                if km is None or not r[1]:
+                    continue
+                ctx.count('eval.distance-column-cell')
+                if abs(r[1] - km) > 0.002 * km:
+                    ctx.violation('table:distance-column-differs-from-the-code:%s-%s-%s' % (y, g, r[0]),
+                                  {'year': y, 'g': g, 'row': r[0], 'column_km': r[1]}, '%.5f km' % km, r[1])
+                else:
+                    ctx.nt(('dcol', y, g, r[0]))
+
+
 def run_shard(ctx, spec):
     core.import_athlib()
     mon = Monitor(ctx)
     a = mon.a
     rnd = random.Random(ctx.seed * 7 + spec['i'])
+    if spec['i'] == 0:
+        distance_column(mon, ctx)
+    if spec['i'] % 4 == 1:
+        # history: in this process the first lookups by distance are for other kinds of event (walks, hurdles, steeplechase, relays,
+        # field events - tabulated or not, answered or refused; nothing is judged on them): whatever they leave on the shared
+        # graders must not steer the running distances that follow
+        for (y, g) in ((2023, 'm'), (2015, 'f'), (2023, 'f'), (2015, 'm')):
+            for ev in ('7KW', '3500W', '12KW', '25KW', '1500W', '30KW', '350H', '150H', '2500SC', '1000SC', '4x300', 'HJ', 'WT', '3KW', '20KW', '10KW', 'PEN'):
+                attach.call(attach.original(a.wma_world_best), g, ev, year=y)
+                attach.call(attach.original(a.wma_age_factor), g, 50, ev, year=y)
+                ctx.count('eval.other-kinds-of-event-looked-up-first')
     # whole ages and ages between two columns of the table (the grader interpolates between ages as well)
     ages = [35, 47.5, 50, 80, 100, 60.25] if ctx.tier == 'quick' else [20, 35, 35.5, 50, 52.25, 65, 80, 95, 99.5, 100, 100.5]
     # one process serves both genders and both table years, interleaved query by query: the graders are
